@@ -19,7 +19,7 @@ class NS:
 
 def normalize(v, ty):
     """bring a returned value to the declared return type (so clauses can treat results uniformly)"""
-    if ty is None:
+    if ty is None or type(v).__name__ == "PyRecord":
         return v
     if isinstance(ty, TupleTy):
         if isinstance(v, (tuple, list)) and len(v) == len(ty.elems):
@@ -91,7 +91,7 @@ class Spec:
             if isinstance(cond, bool) and cond:
                 continue
             ex.obligations.append(Obligation(f"{callid}.{self.key.split('::')[1]}.pre.{c.name}", "call-pre",
-                                             list(st.pc), z3_bool(cond), {"callee": self.key}))
+                                             list(st.hyps), z3_bool(cond), {"callee": self.key}))
             st = st.assume(cond)
         ret_ty = self.ret_ty(ex)
         if ret_ty is None:
